@@ -61,6 +61,44 @@ def main(tier, seed):
             out = [(i, (pat[k], ts_order[tsc[k] % len(ts_order)] if pat[k] == 0 else '')) for k, (i, _c) in enumerate(ctxs)]
             return out
         cases.append((calls, ts_cfg, rng.choice([0, 7, 16384, 65536]), fn, rng.choice([0, 7, 100, 16384, 2 ** 32 - 1]), ['1.2.3']))
+    # the peer's reply need not follow the order of the proposal, may leave contexts unanswered, and may (wrongly)
+    # answer an id that was never proposed: every permutation for the small proposals, seeded shapes for the rest
+    def reshaped(fn, shape, arg=None):
+        def g(ctxs, ts_order):
+            out = list(fn(ctxs, ts_order))
+            if shape == 'perm':
+                out = [out[k] for k in arg if k < len(out)]
+            elif shape == 'reversed':
+                out.reverse()
+            elif shape == 'rotated':
+                out = out[1:] + out[:1]
+            elif shape == 'shuffled':
+                random.Random(arg).shuffle(out)
+            elif shape == 'omit':
+                out = [x for k, x in enumerate(out) if (k + arg) % 3]
+            elif shape == 'unknown_id':
+                used = set(i for i, _x in out)
+                free = [i for i in range(1, 256, 2) if i not in used] + [2, 4]
+                out.insert(arg % (len(out) + 1), (free[0], (0, ts_order[0])))
+            return out
+        return g
+    extra = []
+    for calls, ts_cfg, own, fn, peer_max, look in cases:
+        n = sum(len(c) for _k, c in calls)
+        if n in (2, 3) and len(extra) < (120 if tier == 'quick' else 2000):
+            for perm in itertools.permutations(range(n)):
+                if list(perm) != list(range(n)) and (tier != 'quick' or rng.random() < 0.3):
+                    extra.append((calls, ts_cfg, own, reshaped(fn, 'perm', perm), peer_max, look))
+    for calls, ts_cfg, own, fn, peer_max, look in cases[-(30 if tier == 'quick' else 300):]:
+        shape = rng.choice(['reversed', 'rotated', 'shuffled', 'omit', 'unknown_id'])
+        extra.append((calls, ts_cfg, own, reshaped(fn, shape, rng.randrange(1000)), peer_max, look))
+    for shape in ('reversed', 'rotated', 'omit', 'unknown_id'):
+        calls = [('scu', classes(1, 3)), ('scp', classes(2, 2))]
+
+        def fn5(ctxs, ts_order):
+            return [(i, (0 if k != 1 else 3, ts_order[k % len(ts_order)] if k != 1 else '')) for k, (i, _c) in enumerate(ctxs)]
+        extra.append((calls, TS[:2], 16384, reshaped(fn5, shape, 1), 16384, []))
+    cases += extra
     obs = [nd.observe_request(*c) for c in cases]
     run = common.CoqRun('C11')
     failing, broken, n_obl, n_ok = common.run_sharded(run, 'Req', nd.IMPORTS, 'rcase', [t for t, _h in obs],
@@ -70,7 +108,9 @@ def main(tier, seed):
     cov['distinct_nontrivial'] = len(set(repr((h['calls'], h['answers'], h['ts'])) for _t, h in obs if h['n_contexts'] >= 2))
     cov['rule'] = ('exhaustive reply patterns (results 0..4, every transfer-syntax choice) for 1..3 proposed contexts; '
                    'add_scu/add_scp call sequences with class-list sizes 1, 64, 127, 128, 60+68, 100+27+1, 129, 139, ...; '
-                   'seeded random configurations and replies; non-trivial = at least two contexts')
+                   'seeded random configurations and replies; replies in every other order (all permutations for 2..3 contexts, '
+                   'reversed / rotated / shuffled), with unanswered contexts and with an id that was never proposed; '
+                   'non-trivial = at least two contexts')
     import collections
     cov['distribution'] = dict(contexts=dict(collections.Counter(str(min(h['n_contexts'], 130)) for _t, h in obs).most_common(12)),
                                rq_not_encodable=sum(1 for _t, h in obs if not h['rq_encodes']),
@@ -79,13 +119,13 @@ def main(tier, seed):
     spec_set = set(failing['spec'])
     known_idx = set()
     for i in failing['spec']:
-        r = dec.report(dict(kind='bad-proposal-or-lookup', **obs[i][1]))
+        r = dec.report(dict(obs[i][1], kind='bad-proposal-or-lookup'))
         if r == 'known':
             known_idx.add(i)
     for i in failing['corr']:
         if i in spec_set:
             continue
-        dec.report(dict(kind='model-differs', theorem='correspondence request_corr', **obs[i][1]), no_input=True)
+        dec.report(dict(obs[i][1], kind='model-differs', theorem='correspondence request_corr'), no_input=True)
     # obligations: shards containing only known-finding cases count as discharged-with-finding
     size = 25
     extra_ok = 0
